@@ -88,6 +88,10 @@ def groups(tier, seed):
             for rd in ('sorted', 'rev'):
                 yield {'kind': 'location', 'root': root, 'mode': mode, 'rd': rd}
     yield {'kind': 'odd-location'}
+    # the location of an entry does not depend on the directories the walk came through before it (links that lead to places seen before)
+    for mode in ('', 'dfs'):
+        for rd in ('sorted', 'rev'):
+            yield {'kind': 'link-location', 'mode': mode, 'rd': rd}
     yield {'kind': 'dimensions'}
     for cls in ('is_archive', 'is_audio', 'is_book', 'is_doc', 'is_font', 'is_image', 'is_source', 'is_video'):
         yield {'kind': 'extclass', 'cls': cls, 'override': False}
@@ -111,7 +115,7 @@ def groups(tier, seed):
 def single(case):
     g = dict(case.get('group') or {})
     # location rows are keyed by the displayed path, which contains the per-run scratch directory: replay the whole group
-    g['only'] = None if g.get('kind') == 'location' else case.get('row')
+    g['only'] = None if g.get('kind') in ('location', 'link-location') else case.get('row')
     return g
 
 
@@ -468,6 +472,26 @@ def eval_group(env, group, tier):
                     isempty = (len(os.listdir(full)) == 0) if stat.S_ISDIR(st.st_mode) else st.st_size == 0
                     exp[shown] = (n, ext, d, os.path.realpath(full), os.path.realpath(dp), b(n.startswith('.')), b(isempty), ext, d, d)
             row_outcomes(group, rows, exp, cols, outs, 'location-' + spelling)
+        elif kind == 'link-location':
+            core.materialise(root, {'top': D({'a': D({'x': F(1), 'deep': D({'back': L('../..'), 'w': F(1)})}), 'l1': L('a'), 'l2': L('a'), 'm-after': F(1),
+                                              'n': D({'y': F(1), 'up': L('..'), 'side': L('../a/deep'), 'zzz': F(1), 'zd': D({'q': F(1)})}), 'z-last': F(1)})})
+            for opt in ('', 'dockerignore', 'hgignore', 'gitignore', 'gitignore hgignore dockerignore'):
+                for frm, cwd in (('top', root), ('.', os.path.join(root, 'top')), (os.path.join(root, 'top'), root)):
+                    q = 'path, absdir, abspath, is_symlink from %s symlinks %s %s into list' % (frm, opt, group['mode'])
+                    o = env.run([q], cwd=cwd, preload=True, env={'FSX_READDIR': group['rd']})
+                    rws = o.rows(4) or []
+                    bad = []
+                    for shown, absdir, abspath, islink in rws:
+                        parent = os.path.realpath(os.path.join(cwd, os.path.dirname(shown)))
+                        if absdir != parent or (islink == 'false' and abspath != os.path.join(parent, os.path.basename(shown))):
+                            bad.append([shown, absdir, abspath, parent])
+                    r = {'case': {'group': {k_: v_ for k_, v_ in group.items() if k_ != 'only'}, 'row': [opt, frm if frm in ('top', '.') else 'abs']}, 'layer': 'link-location', 'nt': True,
+                         'trans': len(rws)}
+                    if o.rc != 0 or o.err or len(rws) < 14 or bad:
+                        r.update(status='viol', cls='location-after-a-revisited-directory', sig=('linkloc',), detail={'query': q, 'rows': len(rws), 'wrong': bad[:4], 'err': o.brief()['err']})
+                    else:
+                        r.update(status='ok', sig=('linkloc', len(rws)))
+                    outs.append(r)
         elif kind == 'odd-location':
             # entries below directories whose names are no valid UTF-8
             broot = os.fsencode(root)
